@@ -43,6 +43,9 @@ func (p *pg) genErr(profile string) (Config, Plan) {
 	c := p.baseConfig(profile)
 	c.Strict = true
 	c.SegSize = []int{64, 128, 200, 256, 512, 1024, 4096}[p.r.Intn(7)]
+	if p.r.Intn(3) == 0 {
+		return c, p.errChains(&c)
+	}
 	kinds := []string{"append", "append", "append", "deltail", "delhead", "delall", "reopen", "yield", "quiesce", "set", "get", "getstable"}
 	mix := p.swarmMix(kinds, "append")
 	n := p.ops(8 + p.r.Intn(30))
@@ -107,4 +110,84 @@ func (p *pg) genErr(profile string) (Config, Plan) {
 		}
 	}
 	return c, plan
+}
+
+// errChains: short chains around ONE failed call - the dense corner of the
+// error space in which the defects of this code base have lived: what a failed
+// append / seal / truncation leaves in the writer's memory (offsets, indexStart,
+// rolling CRC, sealed flag) or in the file shows only through the one or two
+// calls that follow it and, often, only after the next reopen. Random plans
+// reach a given (failing call, fault position, follow-up) combination about
+// once in tens of thousands of runs; here the skeleton is fixed and everything
+// else is drawn.
+func (p *pg) errChains(c *Config) Plan {
+	c.SegSize = []int{256, 1024, 4096}[p.r.Intn(3)]
+	c.Strict = true
+	var plan Plan
+	small := func(n int) OpSpec {
+		op := OpSpec{Kind: "append", N: n, Var: 0}
+		for i := 0; i < n; i++ {
+			op.Sizes = append(op.Sizes, []int{8, 16, 40, 100}[p.r.Intn(4)])
+			op.Ext = append(op.Ext, 0)
+		}
+		return op
+	}
+	sealing := func() OpSpec {
+		// a batch that takes the tail past its size limit
+		op := small(1 + p.r.Intn(2))
+		op.Sizes = append(op.Sizes, c.SegSize-64+p.r.Intn(128))
+		op.Ext = append(op.Ext, 0)
+		op.N++
+		return op
+	}
+	for i := 1 + p.r.Intn(3); i > 0; i-- {
+		plan.Ops = append(plan.Ops, small(1+p.r.Intn(3)))
+	}
+	var f OpSpec
+	switch p.r.Intn(10) {
+	case 0, 1, 2:
+		f = sealing()
+	case 3:
+		f = small(1 + p.r.Intn(3))
+	case 4, 5, 6:
+		f = OpSpec{Kind: "deltail", K: 1 + p.r.Intn(3), Var: p.r.Intn(3)}
+	case 7:
+		f = OpSpec{Kind: "delhead", K: 1 + p.r.Intn(6), Var: p.r.Intn(3)}
+	case 8:
+		f = OpSpec{Kind: "delall", Var: p.r.Intn(3)}
+	default:
+		f = OpSpec{Kind: "quiesce"} // the background rotation's own calls
+		plan.Ops = append(plan.Ops, sealing())
+	}
+	if f.Kind != "quiesce" && p.r.Intn(3) == 0 {
+		// a rotation is (probably still) pending when the failing call starts: the
+		// call waits for it, and the failure may be the rotation's own
+		plan.Ops = append(plan.Ops, sealing())
+	}
+	f.Fault = &FaultSpec{Class: "err",
+		Target: []string{"WriteAt", "WriteAt", "Sync", "Sync", "Sync", "CommitState", "Create", "Create", ""}[p.r.Intn(9)],
+		K:      p.r.Pick([]int{60, 30, 10}),
+		When:   []string{"before", "before", "after", "mid"}[p.r.Intn(4)]}
+	plan.Ops = append(plan.Ops, f)
+	// follow-up: retry the failed call, or one or two other writes
+	for i := 1 + p.r.Intn(2); i > 0; i-- {
+		switch p.r.Intn(6) {
+		case 0:
+			g := f
+			g.Fault = nil
+			if g.Kind != "quiesce" {
+				plan.Ops = append(plan.Ops, g)
+			}
+		case 1, 2:
+			plan.Ops = append(plan.Ops, small(1+p.r.Intn(2)))
+		case 3:
+			plan.Ops = append(plan.Ops, OpSpec{Kind: "deltail", K: 1 + p.r.Intn(2), Var: p.r.Intn(3)})
+		case 4:
+			plan.Ops = append(plan.Ops, OpSpec{Kind: "delhead", K: 1 + p.r.Intn(3), Var: p.r.Intn(3)})
+		default:
+			plan.Ops = append(plan.Ops, sealing())
+		}
+	}
+	plan.Ops = append(plan.Ops, OpSpec{Kind: "reopen"}, small(1), OpSpec{Kind: "reopen"})
+	return plan
 }
